@@ -5,6 +5,7 @@ import (
 	"fmt"
 	"os"
 	"path/filepath"
+	"sort"
 	"strings"
 	"testing"
 
@@ -252,4 +253,88 @@ func sanitize(s string) string {
 		return b.String()[:100]
 	}
 	return b.String()
+}
+
+// TestReduce (development aid): line-based delta debugging of a saved program case
+// (VERIF_REDUCE=<case dir>) that keeps the violation key; only meaningful for
+// violations that need no expected output (rejections, crashes).
+func TestReduce(t *testing.T) {
+	dir := os.Getenv("VERIF_REDUCE")
+	if dir == "" {
+		t.Skip()
+	}
+	s, err := core.LoadCase(dir)
+	if err != nil {
+		t.Fatal(err)
+	}
+	p := core.Lookup(s.Property)
+	env.Known = &core.Known{}
+	var c progCase
+	json.Unmarshal(s.Case, &c)
+	want := s.VKey
+	if os.Getenv("VERIF_REDUCE_KEY") != "" {
+		want = os.Getenv("VERIF_REDUCE_KEY")
+	}
+	fails := func(src string) bool {
+		cc := c
+		cc.Src = src
+		r := p.Check(env, &cc)
+		return r.VKey == want
+	}
+	lines := strings.Split(c.Src, "\n")
+	if !fails(c.Src) {
+		t.Fatalf("case does not fail with key %q", want)
+	}
+	// candidates: brace-balanced blocks (a line ending in "{" up to its matching "}"), then single lines; repeat to a fixpoint
+	for changed := true; changed; {
+		changed = false
+		type rng struct{ a, b int }
+		var cands []rng
+		var stack []int
+		for i, ln := range lines {
+			tr := strings.TrimSpace(ln)
+			opens := strings.Count(tr, "{") - strings.Count(tr, "}")
+			if opens > 0 && strings.HasSuffix(tr, "{") {
+				stack = append(stack, i)
+			} else if opens < 0 && len(stack) > 0 {
+				a := stack[len(stack)-1]
+				stack = stack[:len(stack)-1]
+				cands = append(cands, rng{a, i})
+			}
+			cands = append(cands, rng{i, i})
+		}
+		sort.Slice(cands, func(x, y int) bool { return cands[x].b-cands[x].a > cands[y].b-cands[y].a })
+		removedLines := map[int]bool{}
+		for _, c := range cands {
+			skip := false
+			for k := c.a; k <= c.b; k++ {
+				if removedLines[k] {
+					skip = true
+				}
+			}
+			if skip {
+				continue
+			}
+			var cand []string
+			for k, ln := range lines {
+				if !removedLines[k] && (k < c.a || k > c.b) {
+					cand = append(cand, ln)
+				}
+			}
+			if fails(strings.Join(cand, "\n")) {
+				for k := c.a; k <= c.b; k++ {
+					removedLines[k] = true
+				}
+				changed = true
+			}
+		}
+		var kept []string
+		for k, ln := range lines {
+			if !removedLines[k] {
+				kept = append(kept, ln)
+			}
+		}
+		lines = kept
+	}
+	fmt.Println("REDUCED:\n" + strings.Join(lines, "\n"))
 }
